@@ -81,6 +81,13 @@ class RunLoopClient:
                 out.append(("API", "MEDIATE", node))
         if isinstance(node, ast.Subscript) and isinstance(node.ctx, ast.Load) and self_attr(node.value) == "_out_states":
             out.append(("API", "OUT_STATE", node))
+        # multi-process: the out-state received from the worker and committed without being parked in the table
+        if isinstance(node, ast.Assign) and len(node.targets) == 1 and isinstance(node.targets[0], ast.Name) and isinstance(node.value, ast.Call) \
+                and isinstance(node.value.func, ast.Attribute) and node.value.func.attr == "recv" and ctx.fn is not None:
+            committed = {norm(c.args[0]) for c in ast.walk(ctx.fn.fn) if isinstance(c, ast.Call) and isinstance(c.func, ast.Attribute)
+                         and c.func.attr == "insert_into_global_state" and c.args}
+            if node.targets[0].id in committed:
+                out.append(("API", "OUT_STATE", node))
         return out
 
     def inline(self, call: ast.Call, ctx: Ctx) -> Sequence[FnRef]:
